@@ -64,6 +64,7 @@ def _case(draw, tier):
         doms.append(list(draw(st.permutations(list(range(n))))[:size]))
     vars_ = [{"dom": v, "decl": draw(st.sampled_from(["let", "from"])), "type": "Ent"} for v in range(nF + 1)]
     frees = list(range(nF))
+    bare_truth = False
     klass = "both" if story else draw(st.sampled_from(["both", "both", "both", "both", "only_u", "only_F", "const"]))
     if story:
         rel = ["cmp", draw(st.sampled_from([">=", "<=", ">", "=="])), ["attr", ["var", 1], draw(st.sampled_from(["a", "b"]))],
@@ -104,6 +105,11 @@ def _case(draw, tier):
             c = ["not", "not_", leaf(draw, ctx, [x, u])]
         else:
             c = cond_tree(draw, ctx, 2)
+    elif klass == "only_u" and chance(draw, 1, 3):
+        # a bare value-typed expression of the universal variable as the whole condition (true when every value is truthy),
+        # whose OBJECT is mentioned again, as a comparison operand, in an expression built later (share_terms + later_uses)
+        c = ["truth", ["attr", ["var", u], draw(st.sampled_from(["a", "s", "tags", "o"]))]]
+        bare_truth = True
     elif klass == "only_u":
         c = _only(draw, ctx, [u])
     elif klass == "only_F":
@@ -136,6 +142,11 @@ def _case(draw, tier):
     case = {"ents": recs, "doms": doms, "vars": vars_, "cond": cond, "sel": sel,
             "desc": "entity" if (len(sel) == 1 and draw(st.booleans())) else "set_of", "quant": "an",
             "split_top": split, "dom_kind": "list", "klass": klass, "combine": combine, "u": u}
+    if len(fa) > 3 and fa[3][0] == "attr" and chance(draw, 1, 3):
+        case["universal_mentioned_later"] = True
+    if bare_truth and len(fa) == 3:
+        case["share_terms"] = True
+        case["later_uses"] = True
     inner = [n for n in A.walk(cond) if n[0] == "forall"][0][2]
     if not A.has_kind(cond, "not") and A.has_kind(inner, "cmp", "in") and not (len(fa) > 3 and fa[3][0] == "flat") and chance(draw, 1, 4):
         # the comparison objects of the quantified condition were used before, in an ordinary query over the same
@@ -190,6 +201,8 @@ def check(case) -> Outcome:
     classes = list(feats) + [f"U{min(len(U), 4)}"]
     if case.get("prelude_sharing_comparisons") is not None:
         classes.append("comparison_objects_used_in_an_earlier_query")
+    if case.get("universal_mentioned_later"):
+        classes.append("universal_expression_object_mentioned_in_a_later_query")
     for caching in (True, False):
         (enable_caching if caching else disable_caching)()
         try:
